@@ -515,4 +515,121 @@ theorem run_trace_gets (c : LtCfg → Source → Bool) (es : List Ev) (hes : onl
     | thread i => exact ih hes _ (stepThr_trace_gets c σ i h)
     | world l => simp [onlyThreads] at hes
 
+/-! ## progress: the mutex is always held by a thread that can move -/
+
+/-- whoever holds the mutex is a thread inside its critical section -/
+def Sys.Held (σ : Sys) : Prop := ∀ i, σ.lock = some i → ∃ t, σ.thr[i]? = some t ∧ t.pc ≠ .idle
+
+theorem start_held (s : Store) (todos : List (List Name)) : (Sys.start s todos).Held := by
+  intro i h; simp [Sys.start] at h
+
+theorem getElem?_set_self_of_some {α : Type} (l : List α) (i : Nat) (a b : α) (h : l[i]? = some b) :
+    (l.set i a)[i]? = some a := by
+  have hlt : i < l.length := by
+    by_cases hlt : i < l.length
+    · exact hlt
+    · rw [List.getElem?_eq_none (Nat.le_of_not_lt hlt)] at h; cases h
+  rw [List.getElem?_set_self']
+  simp [hlt]
+
+theorem held_of_set {σ σ' : Sys} {i : Nat} {t t' : Thr} (hσ : σ.Held) (hti : σ.thr[i]? = some t)
+    (hthr : σ'.thr = σ.thr.set i t')
+    (h : (σ'.lock = σ.lock ∧ (σ.lock = some i → t'.pc ≠ .idle)) ∨ (σ'.lock = some i ∧ t'.pc ≠ .idle) ∨ σ'.lock = none) :
+    σ'.Held := by
+  intro j hj
+  rcases h with ⟨hl, hpc⟩ | ⟨hl, hpc⟩ | hl
+  · rw [hl] at hj
+    obtain ⟨tj, htj, hne⟩ := hσ j hj
+    by_cases hji : j = i
+    · subst hji
+      exact ⟨t', by rw [hthr]; exact getElem?_set_self_of_some _ _ _ _ hti, hpc hj⟩
+    · exact ⟨tj, by rw [hthr, List.getElem?_set_ne (fun e => hji e.symm)]; exact htj, hne⟩
+  · rw [hl] at hj
+    cases hj
+    exact ⟨t', by rw [hthr]; exact getElem?_set_self_of_some _ _ _ _ hti, hpc⟩
+  · rw [hl] at hj; cases hj
+
+theorem stepThr_held (c : LtCfg → Source → Bool) (σ : Sys) (i : Nat) (hi : σ.Inv) (hσ : σ.Held) :
+    (σ.stepThr c i).Held := by
+  unfold Sys.stepThr
+  split
+  · exact hσ
+  · rename_i t hti
+    have hok := hi i t hti
+    split
+    · rename_i hpc
+      simp only [ThrOk, hpc] at hok
+      split
+      · exact hσ
+      · split
+        · exact held_of_set hσ hti rfl (Or.inl ⟨rfl, fun h => absurd h hok⟩)
+        · split
+          · exact hσ
+          · exact held_of_set hσ hti rfl (Or.inr (Or.inl ⟨rfl, by simp⟩))
+    · split
+      · exact held_of_set hσ hti rfl (Or.inl ⟨rfl, fun _ => by simp⟩)
+      · exact held_of_set hσ hti rfl (Or.inl ⟨rfl, fun _ => by simp⟩)
+    · exact held_of_set hσ hti rfl (Or.inl ⟨rfl, fun _ => by simp⟩)
+    · exact held_of_set hσ hti rfl (Or.inr (Or.inr rfl))
+
+theorem run_held (c : LtCfg → Source → Bool) (es : List Ev) :
+    ∀ σ : Sys, σ.Inv → σ.Held → (σ.run c es).Held := by
+  induction es with
+  | nil => intro σ _ h; exact h
+  | cons e es ih =>
+    intro σ hi h
+    refine ih _ (step_inv c σ e hi) ?_
+    cases e with
+    | thread i => exact stepThr_held c σ i hi h
+    | world l => exact fun j hj => h j hj
+
+/-- a step of thread `j` that gets it somewhere: its program counter changes or its to-do list shrinks -/
+def Sys.Moves (c : LtCfg → Source → Bool) (σ : Sys) (j : Nat) : Prop :=
+  ∃ t t', σ.thr[j]? = some t ∧ (σ.stepThr c j).thr[j]? = some t' ∧ (t'.pc ≠ t.pc ∨ t'.todo.length < t.todo.length)
+
+theorem progress_of_inv (c : LtCfg → Source → Bool) (σ : Sys) (hi : σ.Inv) (hh : σ.Held)
+    (hwork : ∃ (i : Nat) (t : Thr), σ.thr[i]? = some t ∧ t.todo ≠ []) : ∃ j, σ.Moves c j := by
+  cases hl : σ.lock with
+  | some i =>
+    obtain ⟨t, hti, hne⟩ := hh i hl
+    refine ⟨i, t, ?_⟩
+    have key : ∃ t', (σ.stepThr c i).thr[i]? = some t' ∧ (t'.pc ≠ t.pc ∨ t'.todo.length < t.todo.length) := by
+      unfold Sys.stepThr
+      simp only [hti]
+      cases hpc : t.pc with
+      | idle => exact absurd hpc hne
+      | locked n =>
+        simp only []
+        split
+        · exact ⟨_, getElem?_set_self_of_some _ _ _ _ hti, Or.inl (by simp)⟩
+        · exact ⟨_, getElem?_set_self_of_some _ _ _ _ hti, Or.inl (by simp)⟩
+      | missed n => exact ⟨_, getElem?_set_self_of_some _ _ _ _ hti, Or.inl (by simp)⟩
+      | releasing n r => exact ⟨_, getElem?_set_self_of_some _ _ _ _ hti, Or.inl (by simp)⟩
+    obtain ⟨t', h1, h2⟩ := key
+    exact ⟨t', hti, h1, h2⟩
+  | none =>
+    obtain ⟨i, t, hti, hwork⟩ := hwork
+    have hok := hi i t hti
+    have hidle : t.pc = .idle := by
+      unfold ThrOk at hok
+      split at hok
+      · assumption
+      · rw [hl] at hok; cases hok.1
+      · rw [hl] at hok; cases hok.1
+      · rw [hl] at hok; cases hok.1
+    refine ⟨i, t, ?_⟩
+    have key : ∃ t', (σ.stepThr c i).thr[i]? = some t' ∧ (t'.pc ≠ t.pc ∨ t'.todo.length < t.todo.length) := by
+      unfold Sys.stepThr
+      simp only [hti, hidle]
+      cases htd : t.todo with
+      | nil => exact absurd htd hwork
+      | cons n rest =>
+        simp only []
+        split
+        · exact ⟨_, getElem?_set_self_of_some _ _ _ _ hti, Or.inr (by simp)⟩
+        · simp only [hl]
+          exact ⟨_, getElem?_set_self_of_some _ _ _ _ hti, Or.inl (by simp)⟩
+    obtain ⟨t', h1, h2⟩ := key
+    exact ⟨t', hti, h1, h2⟩
+
 end MJ.MemoConc
